@@ -365,7 +365,8 @@ const GO_KEYWORDS: [&str; 25] = [
 /// import path made an identifier, or the whole path made an identifier when two imported
 /// packages (or a package and the runtime's own `fmt`) would otherwise share it. A name that is
 /// a Go keyword, or that another package has taken already (`x/a/b` and `x_a/b`), gets a
-/// numeric suffix; the packages are named in the order of their paths.
+/// numeric suffix, and so does a name that a function, a type or a variant of the program has
+/// (`fn time(..)` next to `import "time"`); the packages are named in the order of their paths.
 fn go_package_alias(goenv: &GlobalGoEnv, package_path: &str) -> String {
     let mut paths: Vec<&str> = goenv
         .genv
@@ -388,6 +389,18 @@ fn go_package_alias(goenv: &GlobalGoEnv, package_path: &str) -> String {
 
     let base_of = |path: &str| sanitize_package_alias(last_path_segment(path));
     let mut taken: Vec<String> = vec!["fmt".to_string()];
+    // a package cannot be imported under the name of a function or type the file declares
+    // (`fn time(..)` or `struct time` next to `import "time"`)
+    taken.extend(goenv.genv.value_env.funcs.keys().map(|name| go_ident(name)));
+    taken.extend(goenv.structs().map(|(name, _)| go_ident(&name.0)));
+    for (name, def) in goenv.enums() {
+        taken.push(go_ident(&name.0));
+        taken.extend(
+            def.variants
+                .iter()
+                .map(|(variant, _)| variant_struct_name(goenv, &name.0, &variant.0)),
+        );
+    }
     let mut chosen = String::new();
     for path in paths.iter() {
         let base = base_of(path);
